@@ -42,6 +42,21 @@ type numSliceCap[T any] struct {
 type numSigned[T any] struct {
 	V T `@(Sign? Tok)`
 }
+type numSignedPtr[T any] struct {
+	V *T `@(Sign? Tok)`
+}
+
+// numNested: the number is captured, then a nested production completes, all inside an optional group; another
+// optional group could take the same tokens. The conversion happens when this production completes.
+type numNested[T any] struct {
+	V T         `( @Tok`
+	C *numChild `  @@ )?`
+	A string    `( Tok @Tok )?`
+}
+type numChild struct {
+	W string `@Tok`
+}
+
 type numOuter[T any] struct {
 	N *numScalar[T] `  @@ ";"`
 	S string        `| @Tok ";"`
@@ -101,6 +116,8 @@ func mkNumKind[T any](name, class string, bits int) numKind {
 		pSlCap  *participle.Parser[numSliceCap[T]]
 		pOuter  *participle.Parser[numOuter[T]]
 		pAfter  *participle.Parser[numAfter[T]]
+		pSigPtr *participle.Parser[numSignedPtr[T]]
+		pNested *participle.Parser[numNested[T]]
 	)
 	opts := []participle.Option{participle.Lexer(c17Lex), participle.Elide("WS")}
 	return numKind{name: name, class: class, bits: bits, run: func(shape, input string) (res numRes) {
@@ -147,6 +164,24 @@ func mkNumKind[T any](name, class string, bits int) numKind {
 					pSigned = participle.MustBuild[numSigned[T]](participle.Lexer(c17SignLex), participle.Elide("WS"))
 				}
 				ast, err := pSigned.ParseString("f", input)
+				res.err = err
+				if err == nil {
+					res.vals = fieldVals(reflect.ValueOf(ast).Elem().Field(0))
+				}
+			case "signedptr":
+				if pSigPtr == nil {
+					pSigPtr = participle.MustBuild[numSignedPtr[T]](participle.Lexer(c17SignLex), participle.Elide("WS"))
+				}
+				ast, err := pSigPtr.ParseString("f", input)
+				res.err = err
+				if err == nil {
+					res.vals = fieldVals(reflect.ValueOf(ast).Elem().Field(0))
+				}
+			case "nested":
+				if pNested == nil {
+					pNested = participle.MustBuild[numNested[T]](append([]participle.Option{participle.UseLookahead(3)}, opts...)...)
+				}
+				ast, err := pNested.ParseString("f", input)
 				res.err = err
 				if err == nil {
 					res.vals = fieldVals(reflect.ValueOf(ast).Elem().Field(0))
@@ -214,7 +249,7 @@ func numKindByName(n string) *numKind {
 
 type c17Case struct {
 	Kind   string   `json:"kind"`
-	Shape  string   `json:"shape"` // scalar | ptr | slice | signed | outer | after
+	Shape  string   `json:"shape"` // scalar | ptr | slice | slicecap | signed | signedptr | nested | outer | after
 	Texts  []string `json:"texts"` // token texts (slice: several; signed: [sign, digits]; others: one)
 	Spaces string   `json:"spaces,omitempty"`
 }
@@ -223,8 +258,10 @@ func (c *c17Case) input() string {
 	switch c.Shape {
 	case "slice", "slicecap":
 		return strings.Join(c.Texts, " ")
-	case "signed":
+	case "signed", "signedptr":
 		return c.Texts[0] + c.Spaces + c.Texts[1]
+	case "nested":
+		return c.Texts[0] + " x"
 	case "outer":
 		return c.Texts[0] + c.Spaces + ";"
 	case "after":
@@ -289,7 +326,7 @@ func fmtVals(vs []reflect.Value) string {
 }
 
 const c17Rule = "static grammars for every numeric kind (int8..int64, int, uint8..uint64, uint, float32, float64, named types) in six " +
-	"shapes (scalar, pointer, slice, multi-token @(Sign? Tok), inside an alternative that can accept the text another way, after other " +
+	"shapes (scalar, pointer, slice, multi-token @(Sign? Tok) into a value and into a pointer, before a nested production inside an optional group, inside an alternative that can accept the text another way, after other " +
 	"tokens) x texts (boundary values +-1 of every width in base 10/16/8/2, signs, prefixes, underscores, exponents, hex floats, Inf/NaN " +
 	"spellings, junk); oracle: strconv.ParseInt/ParseUint/ParseFloat with the field's bit size and base 0 -- success => the field holds " +
 	"exactly that value, failure => Parse fails with an error positioned at the first captured token that mentions the conversion (or the " +
@@ -304,13 +341,13 @@ func checkC17(c *c17Case, r *vstat.Run) outcome {
 	input := c.input()
 	// make sure the lexer really yields the texts as tokens (otherwise the case is outside the domain)
 	def := lexer.Definition(c17Lex)
-	if c.Shape == "signed" {
+	if c.Shape == "signed" || c.Shape == "signedptr" {
 		def = c17SignLex
 	}
 	lr := lexAll(def, "f", input)
 	var toks []lexer.Token
 	for _, t := range lr.toks {
-		if !t.EOF() && strings.TrimSpace(t.Value) != "" && t.Value != ";" && !(c.Shape == "after" && t.Value == "x") {
+		if !t.EOF() && strings.TrimSpace(t.Value) != "" && t.Value != ";" && !((c.Shape == "after" || c.Shape == "nested") && t.Value == "x") {
 			toks = append(toks, t)
 		}
 	}
@@ -344,7 +381,7 @@ func checkC17(c *c17Case, r *vstat.Run) outcome {
 		for _, t := range c.Texts {
 			wants = append(wants, numExpect(k, t))
 		}
-	case "signed":
+	case "signed", "signedptr":
 		wants = []numWant{numExpect(k, c.Texts[0]+c.Texts[1])}
 	default:
 		wants = []numWant{numExpect(k, c.Texts[0])}
@@ -493,7 +530,7 @@ func genNumText(t *rapid.T) (string, bool) {
 func TestC17(t *testing.T) {
 	runProp(t, "C17", c17Rule, func(t *rapid.T, r *vstat.Run) {
 		k := numKinds[rapid.IntRange(0, len(numKinds)-1).Draw(t, "kind")]
-		c := &c17Case{Kind: k.name, Shape: rapid.SampledFrom([]string{"scalar", "scalar", "ptr", "slice", "slicecap", "signed", "outer", "after"}).Draw(t, "shape")}
+		c := &c17Case{Kind: k.name, Shape: rapid.SampledFrom([]string{"scalar", "scalar", "ptr", "slice", "slicecap", "signed", "signedptr", "nested", "outer", "after"}).Draw(t, "shape")}
 		nt := false
 		switch c.Shape {
 		case "slice", "slicecap":
@@ -503,7 +540,7 @@ func TestC17(t *testing.T) {
 				c.Texts = append(c.Texts, s)
 				nt = nt || b
 			}
-		case "signed":
+		case "signed", "signedptr":
 			s, b := genNumText(t)
 			nt = b
 			sign := ""
